@@ -6,11 +6,17 @@ Open Scope N_scope.
 
 (* one message: (index, reception time us, ecu, timestamp dms, extended header code: 0 none, else 1 + verb_mstp_mtin, lifecycle id) *)
 Definition raw_msg := (N * N * N * N * N * N)%type.
+(* one table entry as the harness read it off the real `Lifecycle` value it put into the evmap:
+   (start_time, is_resume() as 0/1, resume_start_time(), resume_time(), end_time(), suspend_duration(), nr_msgs) *)
+Definition raw_item := (N * N * N * N * N * N * N)%type.
+Definition item_of (r : raw_item) : lc_item :=
+  let '(s, isr, rs, rtm, e, su, nr) := r in mkitem s (negb (isr =? 0)) rs rtm e su nr.
 (* input: window size (secs), minimum delay (us), lifecycle table versions, the stream.
    A version is (number of delivered messages from which it is in force, table); table None: the read handle
-   yields no map (never refreshed or destroyed), Some l: published map id -> start time.  The first version
+   yields no map (never refreshed or destroyed), Some l: published map id -> entry.  The first version
    is in force from 0; thresholds increase. *)
-Definition version := (N * option (list (N * N)))%type.
+Definition raw_table := option (list (N * raw_item)).
+Definition version := (N * raw_table)%type.
 Definition case_C10 := (N * N * list version * list raw_msg)%type.
 
 Fixpoint tag_msgs (t : N) (l : list raw_msg) : list msg :=
@@ -19,17 +25,23 @@ Fixpoint tag_msgs (t : N) (l : list raw_msg) : list msg :=
   | (idx, rt, ecu, ts, ext, lc) :: r => mkmsg idx rt ecu ts (is_ctrl_request ext) lc t :: tag_msgs (t + 1) r
   end.
 
-Fixpoint assoc (l : list (N * N)) (id : N) : option N :=
+Fixpoint assoc {A} (l : list (N * A)) (id : N) : option A :=
   match l with [] => None | (k, v) :: r => if k =? id then Some v else assoc r id end.
-Definition table_of (t : option (list (N * N))) : N -> option N :=
-  match t with None => fun _ => None | Some l => assoc l end.
-Fixpoint version_at (vs : list version) (np : N) (cur : option (list (N * N))) : option (list (N * N)) :=
+(* the published map as a function id -> entry *)
+Definition items_of (t : raw_table) : item_table :=
+  match t with None => fun _ => None | Some l => fun id => option_map item_of (assoc l id) end.
+(* what the sort reads of it: the start_time field of the entry *)
+Definition table_of (t : raw_table) : table := table_of_items (items_of t).
+(* tables whose entries are plain (no resume): (id, start_time) pairs *)
+Definition plain_table (l : list (N * N)) : raw_table := Some (map (fun x => (fst x, (snd x, 0, snd x, snd x, snd x, 0, 1))) l).
+Fixpoint version_at (vs : list version) (np : N) (cur : raw_table) : raw_table :=
   match vs with
   | [] => cur
   | (t, tb) :: r => if t <=? np then version_at r np tb else cur
   end.
 (* the table seen by a lookup made after np messages have been delivered *)
-Definition tables_of (vs : list version) : tables := fun _ np => table_of (version_at vs (N.of_nat np) None).
+Definition item_tables_of (vs : list version) : nat -> nat -> item_table := fun _ np => items_of (version_at vs (N.of_nat np) None).
+Definition tables_of (vs : list version) : tables := fun i np => table_of_items (item_tables_of vs i np).
 
 Fixpoint leaves (l : list otree) : option (list N) :=
   match l with
